@@ -408,6 +408,8 @@ func (r *Run) Finish(ev Evidence) {
 			knownBySig[k.Signature] = k
 		}
 	}
+	// stale replay files of earlier runs must not be mistaken for this run's
+	_ = os.RemoveAll(filepath.Join(envOr("VERIF_REPLAY_DIR", filepath.Join(VerifDir, "replays")), r.Prop))
 	sigs := make([]string, 0, len(r.P.Violations))
 	for s := range r.P.Violations {
 		sigs = append(sigs, s)
@@ -425,6 +427,10 @@ func (r *Run) Finish(ev Evidence) {
 			continue
 		}
 		newViol++
+		if newViol > 30 {
+			vlist = append(vlist, map[string]any{"signature": s, "known": false, "count": v.Count})
+			continue
+		}
 		dir := filepath.Join(envOr("VERIF_REPLAY_DIR", filepath.Join(VerifDir, "replays")), r.Prop)
 		_ = os.MkdirAll(dir, 0o755)
 		path := filepath.Join(dir, sigFile(s)+".json")
@@ -434,6 +440,9 @@ func (r *Run) Finish(ev Evidence) {
 		fmt.Printf("VIOLATION property=%s replay=%s\n", r.Prop, path)
 		fmt.Printf("  signature: %s\n  what: %s\n  cases with this signature: %d\n", s, v.What, v.Count)
 		vlist = append(vlist, map[string]any{"signature": s, "known": false, "count": v.Count, "replay": path})
+	}
+	if newViol > 30 {
+		fmt.Printf("... and %d more violation signatures (listed in the evidence file)\n", newViol-30)
 	}
 	for s, k := range knownBySig {
 		if _, ok := r.P.Violations[s]; !ok {
